@@ -27,6 +27,8 @@ type C09Case struct {
 	Mask   int    `json:"mask"`
 	Events int    `json:"events"`
 	Reach  bool   `json:"reach"` // binding reaches the deepest point (else short-circuits early)
+	Ifs    int    `json:"ifs,omitempty"`  // nodes family: this many leaves are replaced by an if (5 nodes each, one of them the end-if marker)
+	Bins   int    `json:"bins,omitempty"` // nodes family: this many leaves are replaced by a two-leaf operator (3 nodes each, inlined under FastEvaluation)
 }
 
 var naryOps = []string{"+", "add", "-", "sub", "*", "mul", "/", "div", "%", "mod", "and", "&", "&&", "or", "|", "||", "xor", "=", "==", "eq", "c_sum"}
@@ -75,6 +77,40 @@ func sized(op, alt string, n int) *m.Node {
 		node.Kids = append(node.Kids, leafFor(op, i))
 	}
 	return node
+}
+
+// decorate replaces the first ifs+bins leaves (depth-first) by an if over leaves (+4 nodes)
+// or by a two-leaf operator (+2 nodes), keeping the static type of the leaf. The caller must
+// have left room: the tree needs at least ifs+bins leaves.
+func decorate(tree *m.Node, ifs, bins int) {
+	var rec func(n *m.Node)
+	rec = func(n *m.Node) {
+		for i, k := range n.Kids {
+			if ifs+bins == 0 {
+				return
+			}
+			if k.Kind != m.KVar {
+				rec(k)
+				continue
+			}
+			isBool := k.Name[0] == 'p'
+			switch {
+			case ifs > 0:
+				n.Kids[i] = m.If(m.Var("p1"), k, k.Clone())
+				ifs--
+			case isBool:
+				n.Kids[i] = m.Op("=", k, m.Var("p2"))
+				bins--
+			default:
+				n.Kids[i] = m.Op("*", k, m.Var("q1"))
+				bins--
+			}
+		}
+	}
+	rec(tree)
+	if ifs+bins != 0 {
+		panic("decorate: not enough leaves")
+	}
 }
 
 func countNodes(n *m.Node) int {
@@ -265,7 +301,13 @@ func (c C09Case) tree() *m.Node {
 		}
 		return n
 	case "nodes":
-		return sized(c.Op, c.Inner, c.N)
+		base := c.N - 4*c.Ifs - 2*c.Bins
+		if base < 3 {
+			return sized(c.Op, c.Inner, c.N)
+		}
+		tree := sized(c.Op, c.Inner, base)
+		decorate(tree, c.Ifs, c.Bins)
+		return tree
 	default:
 		tree := stackShape(c.Shape, c.N)
 		deepen(tree, c.Deep)
@@ -366,6 +408,14 @@ func genC09(t *rapid.T) C09Case {
 		c.Op, c.Inner = pair[0], pair[1]
 		base := rapid.SampledFrom([]int{16383, 16384, 32767, 8192, 10922}).Draw(t, "base")
 		c.N = base + rapid.IntRange(-3, 3).Draw(t, "delta")
+		switch rapid.IntRange(0, 3).Draw(t, "decor") {
+		case 1:
+			c.Ifs = rapid.SampledFrom([]int{1, 2, 3, 100, 1000}).Draw(t, "ifs")
+		case 2:
+			c.Bins = rapid.SampledFrom([]int{1, 2, 3, 100, 1000}).Draw(t, "bins")
+		case 3:
+			c.Ifs, c.Bins = rapid.IntRange(1, 50).Draw(t, "ifs"), rapid.IntRange(1, 50).Draw(t, "bins")
+		}
 	default:
 		c.Kind, c.Shape, c.N = "stack", rapid.IntRange(0, 5).Draw(t, "shape"), rapid.IntRange(1, 24).Draw(t, "need")
 		c.Deep = rapid.IntRange(0, 5).Draw(t, "deep")
@@ -568,6 +618,14 @@ func sweepC09(tier string, shard, shards int, emit func(C09Case)) {
 							continue
 						}
 						send(C09Case{Kind: "nodes", Op: pair[0], Inner: pair[1], N: b + d, Mask: mask, Events: ev, Reach: true})
+						// the same size reached with if nodes (their end-if marker is a node too) and
+						// with two-leaf operators (inlined, so no event node, but only under FastEvaluation)
+						for _, dec := range [][2]int{{1, 0}, {3, 0}, {500, 0}, {0, 1}, {0, 3}, {0, 500}, {20, 20}} {
+							if !thorough && (dec[0]+dec[1])%2 == 0 && dec[0]+dec[1] < 40 {
+								continue
+							}
+							send(C09Case{Kind: "nodes", Op: pair[0], Inner: pair[1], N: b + d, Ifs: dec[0], Bins: dec[1], Mask: mask, Events: ev, Reach: true})
+						}
 					}
 				}
 			}
